@@ -7,6 +7,8 @@ import (
 	"sort"
 	"strconv"
 	"strings"
+
+	mxj "github.com/clbanning/mxj/v2"
 )
 
 func sortStrings(s []string) { sort.Strings(s) }
@@ -136,6 +138,12 @@ func deepCopyN(v interface{}, depth int, copyOnPath map[uintptr]bool) interface{
 			c[i] = deepCopyN(e, depth+1, copyOnPath)
 		}
 		return c
+	case mxj.Map:
+		// a nested value of Go type mxj.Map keeps its type
+		if x == nil {
+			return x
+		}
+		return mxj.Map(deepCopyN(map[string]interface{}(x), depth, copyOnPath).(map[string]interface{}))
 	}
 	return v
 }
@@ -238,4 +246,37 @@ func (r *Rng) withDuplicates(m map[string]interface{}) {
 			return
 		}
 	}
+}
+
+// shareSome returns a copy of m in which the non-empty maps below the root also hang, as the SAME
+// Go value, under extra keys beside themselves and at the root: a Map built by a program may
+// reference one sub-document from several places (never cyclic: only copies of leaves-first
+// finished sub-trees are re-attached one level up or at the root).
+func shareSome(m map[string]interface{}) map[string]interface{} {
+	c := deepCopy(m).(map[string]interface{})
+	n := 0
+	var walk func(x interface{}, parent map[string]interface{})
+	walk = func(x interface{}, parent map[string]interface{}) {
+		switch t := x.(type) {
+		case map[string]interface{}:
+			for _, k := range sortedKeys(t) {
+				walk(t[k], t)
+			}
+			if parent != nil && len(t) > 0 && n < 4 {
+				n++
+				parent[fmt.Sprintf("zshare%d", n)] = t
+				if n%2 == 1 {
+					c[fmt.Sprintf("zroot%d", n)] = t
+				}
+			}
+		case []interface{}:
+			for _, e := range t {
+				walk(e, nil)
+			}
+		}
+	}
+	for _, k := range sortedKeys(c) {
+		walk(c[k], c)
+	}
+	return c
 }
